@@ -5,7 +5,7 @@ from rules import common
 
 CLAIMED = True
 TECHNIQUE = "static analysis over type-checked MIR: guarded-table extraction of the unit->multiplier / unit->variant decision chains with constant folding, checked-arithmetic inventory with None-edge reachability, sign/range guard dominance for every integer cast of a deserialised value"
-LEVEL_TEXT = """Static, all-paths decision of: (L1) the size unit table extracted from the compare chain of the size visitor: b->x1, kb/kib->1024, mb/mib->1024^2, gb/gib->1024^3, tb/tib->1024^4 (constants folded), compared case-insensitively, unknown unit -> Err; (L2) every multiplication is u64::checked_mul whose None edge reaches an Err return (no *, wrapping_*, saturating_*); (L3) digits/unit split at the first non-ASCII-digit with trim on both parts, number through str::parse::<u64>/<i64> with the Err edge reaching Err, bare number -> bytes/seconds, and visit_i64 returns Err on the dominating v < 0 edge in both visitors; (L4) every integer cast applied to a deserialised value in the two visitors is dominated by a range guard; (L5) interval unit table second(s)->Second ... year(s)->Year, singular and plural in one alias group, case-insensitive, unknown -> Err; (L6) refresh_rate goes through humantime::parse_duration with its error mapped to a serde error. The numeric behaviour of std's parse/checked_mul and of humantime is trusted. (L8, cont.) visit_u64/visit_i64 return the integer itself (bytes / Second(v)); (L3, cont.) a string without a unit is Second(the parsed number) with no arithmetic on it; (L9a-c) the three visitors implement the documented entry points only, any other visit_* being a plain hand-over of its argument to one of them. (L3, cont.) the bare-number decision is followed from the entry with constants on the None edge of the non-digit search."""
+LEVEL_TEXT = """Static, all-paths decision of: (L1) the size unit table extracted from the compare chain of the size visitor: b->x1, kb/kib->1024, mb/mib->1024^2, gb/gib->1024^3, tb/tib->1024^4 (constants folded), compared case-insensitively, unknown unit -> Err; (L2) every multiplication is u64::checked_mul whose None edge reaches an Err return (no *, wrapping_*, saturating_*); (L3) digits/unit split at the first non-ASCII-digit with trim on both parts, number through str::parse::<u64>/<i64> with the Err edge reaching Err, bare number -> bytes/seconds, and visit_i64 returns Err on the dominating v < 0 edge in both visitors; (L4) every integer cast applied to a deserialised value in the two visitors is dominated by a range guard; (L5) interval unit table second(s)->Second ... year(s)->Year, singular and plural in one alias group, case-insensitive, unknown -> Err; (L6) refresh_rate goes through humantime::parse_duration with its error mapped to a serde error. The numeric behaviour of std's parse/checked_mul and of humantime is trusted. (L8, cont.) visit_u64/visit_i64 return the integer itself (bytes / Second(v)); (L3, cont.) a string without a unit is Second(the parsed number) with no arithmetic on it; (L9a-c) the three visitors implement the documented entry points only, any other visit_* being a plain hand-over of its argument to one of them. (L3, cont.) the bare-number decision is followed from the entry with constants on the None edge of the non-digit search. (L10) no comparison on the length of the literal's text leads only to errors."""
 LEVEL_NOTE = "Trusted: rustc MIR/callee resolution; core::str::parse, u64::checked_mul, str::eq_ignore_ascii_case, humantime::parse_duration; serde's visitor dispatch."
 EXPLANATION = """Decided: L1 multiplier table, L2 checked multiplication with rejecting None edge, L3 split/trim/parse/sign guards, L4 cast inventory under range guards, L5 interval unit table, L6 refresh_rate via humantime. Undecided: nothing of substance beyond the trusted std/humantime parsers."""
 DECIDED = ["L1 size unit table", "L2 overflow checked", "L3 number parsing and sign guards", "L4 guarded casts", "L5 interval unit table", "L6 refresh_rate via humantime"]
@@ -362,6 +362,36 @@ def bare_number(r, fn_, who, want):
               fail_detail="%s: a number without a unit does not come back as %s: %s" % (who, "Second(that number)" if want else "that number of bytes", [show(x, 5) if x else None for x in pays]))
 
 
+LENGTHS = ("core::str::<impl str>::len", "alloc::string::String::len", "core::iter::traits::iterator::Iterator::count", "core::slice::<impl [T]>::len")
+
+
+def rule_no_length_verdict(ctx, p, cfg, rid="L10"):
+    """Whether a number is too large is decided by parsing it and by the checked multiplication, for every number: no literal
+    is turned away because of how many characters its digits take (a digit count is not a magnitude: `00012`, and every
+    20-digit value up to u64::MAX, are fine)."""
+    with ctx.rule(rid, "no literal is rejected by the length of its text", cfg) as r:
+        seen = 0
+        for who, path in (("size", SIZE_V + "visit_str"), ("interval", TIME_V + "visit_str")):
+            f = p.fn_unrolled(path)
+            bad = []
+            for blk in f.blocks:
+                if blk["term"]["k"] != "switch" or blk["id"] not in f.reachable_blocks():
+                    continue
+                si = SwitchInfo(f, blk["id"])
+                nf = cmp_nf(si.discr, True)
+                if nf is None:
+                    continue
+                seen += 1
+                if not any(x[0] == "call" and x[1] in LENGTHS and any(y == ("param", 2) for y in walk(x)) for sd in nf[1:] for x in walk(sd)):
+                    continue
+                for lab, t in si.labelled_edges():
+                    if t is not None and only_err_from(f, t):
+                        bad.append(show(si.discr, 5))
+            r.require(not bad, "%s:no-err-by-text-length" % who, fn=f, detail="no comparison on the length of the literal's text leads only to errors",
+                      fail_detail="%s: a literal is rejected on `%s`, a test on how long its text is: values that parse and fit are turned away" % (who, bad[:2]))
+        r.ok("comparisons-seen", detail="comparisons examined in the two string visitors: %d" % seen)
+
+
 def rule_interval_number(ctx, p, cfg, rid):
     """An interval written as a bare number - integer or string - is that many seconds (L8 and L3 re-evaluated for the interval)."""
     rule_integer_forms(ctx, p, cfg, rid, only="interval")
@@ -479,6 +509,7 @@ def run_cfg(ctx, p, cfg):
         r.floor("unit-keys", len(tab), 14)
 
     from rules import common
+    rule_no_length_verdict(ctx, p, cfg, "L10")
     common.rule_visitor_entry_points(ctx, p, cfg, "L9a", "trigger::size::deserialize_limit::V", ("visit_u64", "visit_i64", "visit_str"), "size limit")
     common.rule_visitor_entry_points(ctx, p, cfg, "L9b", "trigger::time::TimeTriggerInterval", ("visit_u64", "visit_i64", "visit_str"), "interval")
     common.rule_visitor_entry_points(ctx, p, cfg, "L9c", "config::raw::de_duration::", ("visit_str",), "refresh_rate")
